@@ -751,6 +751,7 @@ func (c20) Run(t *testing.T, tape *core.Tape, rcx *RunCtx) *core.Result {
 	res.Nontrivial = sim.Multi > 0 || fault != "none"
 	res.ShapeKey = fmt.Sprintf("%s|k%d|gz%v|%s@%d|ce%d|cx%d|%s|%s", sc.Entry, len(entries), sc.Gzip, fault, faultAt, sc.CapEntries, sc.CapErrors, sc.Consumer[:3], sc.Reader)
 	res.Count("decisions_with_choice", int64(sim.Multi))
+	res.Count("yields_passed_by_a_lone_runnable_task", int64(sim.Skipped))
 	res.Count("fault_timer_wins_race_time_passes_while_runnable", int64(sim.Jitters))
 	res.Count("fault_consumer_stall_in_simulated_time", int64(stallCount))
 	res.SimTimeNs = int64(sim.SimTime)
